@@ -78,10 +78,16 @@ use autosar_data_specification::{AttributeSpec, CharacterDataSpec, ContentMode, 
 use fxhash::{FxBuildHasher, FxHashMap};
 use indexmap::IndexMap;
 pub use iterators::*;
+#[cfg(not(feature = "verif"))]
 use parking_lot::RwLock;
+#[cfg(feature = "verif")]
+use crate::verif::RwLock;
 use parser::ArxmlParser;
 use smallvec::SmallVec;
+#[cfg(not(feature = "verif"))]
 use std::collections::HashSet;
+#[cfg(feature = "verif")]
+use crate::verif::DetSet as HashSet;
 use std::path::{Path, PathBuf};
 use std::sync::{Arc, Weak};
 use std::{fs::File, io::Read};
@@ -95,6 +101,8 @@ mod elementraw;
 mod iterators;
 mod lexer;
 mod parser;
+#[cfg(feature = "verif")]
+pub mod verif;
 
 // allow public access to the error sub-types
 pub use lexer::ArxmlLexerError;
